@@ -99,6 +99,33 @@ def generate():
             raise Unsupported("loguru/__init__.py no longer registers anything with atexit")
         body += "/-- `atexit.register(logger.remove)` is a top-level statement of loguru/__init__.py -/\n"
         body += "def atexitRemoveUnconditional : Bool := %s\n\n" % ("true" if len(top) == 1 and len(nested) == 1 else "false")
+        # coroutine sinks (Queue/Async.lean): the snapshot of the tasks is taken under the handler lock, and
+        # _complete_task returns at once for a task of another loop before it awaits the task
+        stree, _ = parse_module("_simple_sinks.py")
+        ttc = find_func(stree, "tasks_to_complete", cls="AsyncSink")
+        rets = [n for n in ttc.body if isinstance(n, ast.Return)]
+        snap = (len(rets) == 1 and isinstance(rets[0].value, ast.ListComp) and
+                ast.unparse(rets[0].value.generators[0].iter) == "self._tasks" and
+                ast.unparse(rets[0].value.elt) == "self._complete_task(%s)" % ast.unparse(rets[0].value.generators[0].target))
+        httc = find_func(tree, "tasks_to_complete", cls="Handler")
+        hw = [n for n in httc.body if isinstance(n, ast.With)]
+        under = (len(hw) == 1 and ast.unparse(hw[0].items[0].context_expr) == "lock" and
+                 [ast.unparse(x) for x in hw[0].body] == ["return self._sink.tasks_to_complete()"])
+        body += "/-- `AsyncSink.tasks_to_complete` snapshots `self._tasks`; `Handler.tasks_to_complete` calls it under the lock -/\n"
+        body += "def asyncSnapshotUnderLock : Bool := %s\n" % ("true" if snap and under else "false")
+        ct = find_func(stree, "_complete_task", cls="AsyncSink")
+        order = []
+        for n in ast.walk(ct):
+            if isinstance(n, ast.If) and ast.unparse(n.test) == "get_task_loop(task) is not loop" and \
+                    [ast.unparse(x) for x in n.body] == ["return"]:
+                order.append((n.lineno, "skip"))
+            if isinstance(n, ast.Await) and ast.unparse(n.value) == "task":
+                order.append((n.lineno, "await"))
+        order.sort()
+        if [k for _, k in order].count("await") != 1:
+            raise Unsupported("AsyncSink._complete_task does not await the task exactly once")
+        body += "/-- `_complete_task` returns at once for a task that belongs to another event loop -/\n"
+        body += "def asyncSkipsForeignLoop : Bool := %s\n\n" % ("true" if [k for _, k in order] == ["skip", "await"] else "false")
         # what travels through the queue is the formatted text with its record attached; the only part of a record
         # loguru itself makes picklable is the exception (RecordException.__reduce__ / _from_pickled_value)
         rtree, _ = parse_module("_recattrs.py")
@@ -122,4 +149,4 @@ def generate():
     except (Unsupported, SyntaxError, KeyError, AttributeError, IndexError) as e:
         errors.append("%s: %s" % (type(e).__name__, e))
     body += "\nend Queue.ShapeGen\n"
-    return emit("QueueShape", body, ["loguru/_handler.py", "loguru/_recattrs.py", "loguru/__init__.py"], errors)
+    return emit("QueueShape", body, ["loguru/_handler.py", "loguru/_recattrs.py", "loguru/__init__.py", "loguru/_simple_sinks.py"], errors)
